@@ -130,6 +130,10 @@ func (rec *Record) TryCompress() {
 		return
 	}
 	body := rec.Payload.Body
+	if len(body) == 0 {
+		// a long key alone can make the record larger than a block
+		return
+	}
 	try := body
 	if len(body) > TRY_COMPRESS_SIZE {
 		try = try[:TRY_COMPRESS_SIZE]
